@@ -80,6 +80,8 @@ deriving DecidableEq, Repr
 inductive Op
   | create (st : Option Status) (si : SchedIn)
   | update (id : Nat) (st : Option Status) (si : Option SchedIn)
+  /-- an OPTIONS-ONLY patch (`TaskUpdate.Options`: every / cron / offset; no Flux, no Status) -/
+  | optUpdate (id : Nat) (every cron : Option String) (offset : Option Int) (valid : Bool)
   | delete (id : Nat)
   | restart (k : RestartKind) (pageSize : Nat)
   | cancel (id run : Nat)
@@ -162,6 +164,36 @@ def svcUpdate (s : State) (id : Nat) (st : Option Status) (si : Option SchedIn) 
       let t : Task := { old with status := st.getD old.status }
       .ok ({ s with tasks := replaceTask t s.tasks }, t)
 
+/-- What an options patch means for the stored schedule (`TaskUpdate.updateFlux` + kv `updateTask`):
+    `every` replaces a cron and vice versa, an offset patch sets (0 = removes) the offset, absent
+    parts keep their value.  (The Flux-AST editing itself is not modelled.) -/
+def patchSched (old : Sched) (every cron : Option String) (offset : Option Int) : Sched :=
+  { cron := match cron, every with
+      | some c, _ => c
+      | none, some _ => ""
+      | none, none => old.cron,
+    every := match every, cron with
+      | some e, _ => e
+      | none, some _ => ""
+      | none, none => old.every,
+    offset := offset.getD old.offset }
+
+/-- the store accepts an options patch iff it does not name both every and cron ("cannot specify both"),
+    names no empty string, and the patched options validate (bit supplied with the operation) -/
+def patchOK (every cron : Option String) (valid : Bool) : Bool :=
+  valid && !(every.isSome && cron.isSome) && every != some "" && cron != some ""
+
+/-- kv.Service.updateTask for an options-only patch -/
+def svcOptUpdate (s : State) (id : Nat) (every cron : Option String) (offset : Option Int) (valid : Bool) :
+    Except Err (State × Task) :=
+  match findTask id s.tasks with
+  | none => .error .notfound
+  | some old =>
+    if patchOK every cron valid then
+      let t : Task := { old with sched := patchSched old.sched every cron offset }
+      .ok ({ s with tasks := replaceTask t s.tasks }, t)
+    else .error .invalid
+
 def svcDelete (s : State) (id : Nat) : Except Err State :=
   match findTask id s.tasks with
   | none => .error .notfound
@@ -231,6 +263,19 @@ def mwUpdate (s : State) (id : Nat) (st : Option Status) (si : Option SchedIn) :
       | (h, calls, true) => ({ s1 with held := h }, .ok, calls)
       | (h, calls, false) => ({ s1 with held := h }, .err .sched, calls)
 
+/-- `CoordinatingTaskService.UpdateTask` with an options-only `TaskUpdate` -/
+def mwOptUpdate (s : State) (id : Nat) (every cron : Option String) (offset : Option Int) (valid : Bool) :
+    State × Res × List Call :=
+  match findTask id s.tasks with
+  | none => (s, .err .notfound, [])
+  | some frm =>
+    match svcOptUpdate s id every cron offset valid with
+    | .error e => (s, .err e, [])
+    | .ok (s1, to) =>
+      match taskUpdated s1.held frm to with
+      | (h, calls, true) => ({ s1 with held := h }, .ok, calls)
+      | (h, calls, false) => ({ s1 with held := h }, .err .sched, calls)
+
 def mwDelete (s : State) (id : Nat) : State × Res × List Call :=
   let (h, calls) := taskDeleted s.held id
   let s1 := { s with held := h }
@@ -277,6 +322,7 @@ def stepWith (created : List Entry → Task → List Entry × List Call × Bool)
     (s : State) : Op → State × Res × List Call
   | .create st si => mwCreate created s st si
   | .update id st si => mwUpdate s id st si
+  | .optUpdate id ev cr off v => mwOptUpdate s id ev cr off v
   | .delete id => mwDelete s id
   | .restart k _ => restart created s k
   | .cancel id run => runOp s id (.cancel run)
